@@ -73,6 +73,13 @@ def gen_cases(tier, seed):
             z1 = float(rng.choice([5.0, 0.5, zmin - 50.0]))       # one endpoint outside the ice: whatever is reported, exists <=> non-empty, in all executions
         elif r_ < 0.10 and fam in ("uniform", "layered-uniform") and rho > 0:
             z1 = z0                                               # exactly equal depths: a horizontal straight path
+        elif r_ < 0.22 and fam.startswith("layered"):
+            # an endpoint exactly on an inner boundary between two layers
+            zb_ = float(edges[1 + int(rng.integers(0, len(edges) - 2))])
+            if rng.random() < 0.5:
+                z0 = zb_
+            else:
+                z1 = zb_
         ph = rng.uniform(0, 2 * np.pi)
         a = [float(rng.uniform(-2e3, 2e3)), float(rng.uniform(-2e3, 2e3)), float(z0)]
         b = [a[0] + float(rho * np.cos(ph)), a[1] + float(rho * np.sin(ph)), float(z1)]
